@@ -163,3 +163,29 @@ def register_list(R):
                       1: dict(invariant=["all(not asstr(tid_(test)).startswith(asstr(at(_seq, k))) for k in range(_i))",
                                          # nothing is recorded while the prefixes are still being tried
                                          "listof(errors) == at_loop(0, listof(errors))", "listof(test_ids) == at_loop(0, listof(test_ids))", "frame_ok('f:args')"])})
+    register_runner_list(R)
+
+
+def register_runner_list(R):
+    RUN = "testtools.run:"
+    # wlines(h, s, k): history h followed by one write("<id>\n") per element of the first k elements of s, in order
+    R.function("wlines", ["hist", "seq", "int"], "hist")
+    R.axiom("wlines_0", {"h": "hist", "s": "seq"}, "wlines(h, s, 0) == h", patterns=["wlines(h, s, 0)"])
+    R.axiom("wlines_step", {"h": "hist", "s": "seq", "k": "int"},
+            "implies(0 <= k and k < len(s), wlines(h, s, k + 1) == snoc(wlines(h, s, k), call('write', ['%s\\n' % at(s, k)], {})))",
+            patterns=["wlines(h, s, k + 1)"])
+    R.shape("OutStream", write=dict(signature="s", event=True, returns="any"))
+    R.shape("ALoader")
+    R.fields_of("ALoader", errors="list")
+    R.fields_of("TestToolsTestRunner", stdout="OutStream")
+    # --list: exactly the ids list_test reports, one per line, in order; then the loader's import errors and exit status 2 if any
+    R.contract(RUN + "TestToolsTestRunner.list", props=["C19"], params={"test": "Node", "loader": "ALoader"},
+               requires=["forall(lambda rn: implies(not iterable(rn), has(rn, 'id')))"],
+               frame_hist=True, modifies=["hist(self.stdout)"], returns="none",
+               context={"L": "leaves(test)"},
+               exsures=["len(listof(loader.errors)) > 0", "subclass_of(cls_of(exc), SystemExit)",
+                        "hist(self.stdout) == wlines(wlines(old(hist(self.stdout)), idsk(L, len(L)), len(idsk(L, len(L)))), listof(loader.errors), len(listof(loader.errors)))"],
+               ensures=["len(listof(loader.errors)) == 0",
+                        "hist(self.stdout) == wlines(old(hist(self.stdout)), idsk(L, len(L)), len(idsk(L, len(L))))"],
+               loops={0: dict(invariant=["hist(self.stdout) == wlines(old(hist(self.stdout)), _seq, _i)"]),
+                      1: dict(invariant=["hist(self.stdout) == wlines(at_entry(1, hist(self.stdout)), _seq, _i)"])})
